@@ -6,7 +6,130 @@ from props import common as cm
 def run(tier):
     r = Run('C08', tier, level='other')
     cm.run_kernels(r, cm.kernels('c_aggregate', 'c_flathomogen'), quick_cap=1500)
+    from vf import child
+    res = child.run('props.C08', 'monitors_child', r.prop, r.tier, r.seed)
+    child.merge(r, res['recorder'])
+    if res['rc'] != 0:
+        r.broken.append('C08 monitors child failed (rc=%s) at %s: %s' % (res['rc'], res['progress'], res['stderr'][-1500:]))
     r.explanation = ('proved (Engine C): c_aggregate returns, per run of equal index, the sum / mean / maximum / last of the non-missing inputs or NaN beyond maxnan, '
                      'one value per run in order, error on a decreasing index; c_flathomogen keeps missing values and writes the group mean elsewhere; '
                      'bounded: monthly2daily and conservation of totals (python monitors)')
     return r.finish()
+
+
+# ------------------------------------------------------------------------------------------------ python-level bounded monitor
+def _fail(rec, name, what, **w):
+    rec.violation(dict(function=name, kind='monitor', clause=what.split(':')[0][:80]), 'bounded monitor %s: %s' % (name, what), witness=dict(python=True, source='bounded monitor', **w))
+
+
+def monitors_child(rec):
+    import random, warnings, math
+    import numpy as np
+    from props import apidrive
+    from vf import child
+    apidrive.setup()
+    import pandas as pd
+    from hydrodiy.data import dutils as D
+    warnings.simplefilter('ignore')
+    rng = random.Random(rec.seed + 8); nrng = np.random.default_rng(rec.seed + 80)
+    quick = rec.tier == 'quick'
+    DD = child.Distinct().wrap(D, 'aggregate').wrap(D, 'flathomogen').wrap(D, 'monthly2daily')
+    # ---- aggregate / flathomogen through the API
+    ev = 0; bad = 0
+    for it in range(300 if quick else 3000):
+        child.progress('aggregate %d' % it)
+        n = rng.choice([1, 2, 3, 5, 12, 40])
+        kind = rng.choice(['const', 'incr', 'runs', 'big', 'neg'])
+        if kind == 'const':
+            idx = np.full(n, rng.choice([0, 7, -3]))
+        elif kind == 'incr':
+            idx = np.arange(n) * rng.choice([1, 3]) + rng.choice([0, -10, 200001])
+        else:
+            steps = [rng.choice([0, 0, 0, 1, 2]) for _ in range(n)]
+            base = {'runs': 0, 'big': 2 ** 31 - 1 - 2 * n - 5, 'neg': -2 ** 31 + 1}[kind]
+            idx = base + np.cumsum(steps)
+        vals = np.array([rng.choice([0.0, 1.0, -2.5, 7.0, 0.125, float('nan'), float('nan'), 1e6]) for _ in range(n)])
+        pat = rng.choice(['any', 'leadnan', 'trailnan', 'nonan'])
+        if pat == 'leadnan':
+            vals[0] = np.nan
+        elif pat == 'trailnan':
+            vals[-1] = np.nan
+        elif pat == 'nonan':
+            vals = np.where(np.isnan(vals), 2.0, vals)
+        groups = []
+        for k in range(n):
+            if k == 0 or idx[k] != idx[k - 1]:
+                groups.append([])
+            groups[-1].append(k)
+        for maxnan in (0, 1, 3, n + 1):
+            for op in (0, 1, 2, 3):
+                ev += 1
+                out = D.aggregate(idx, vals, op, maxnan)
+                ok = len(out) == len(groups)
+                for g, o in zip(groups, out if ok else []):
+                    v = vals[g]; nn = v[~np.isnan(v)]; nnan = int(np.isnan(v).sum())
+                    if nnan > maxnan:
+                        ok = ok and np.isnan(o)
+                    elif len(nn) == 0:
+                        ok = ok and (op != 0 or o == 0.0 or np.isnan(o))        # only the sum operator is constrained for empty groups (0 or missing)
+                    else:
+                        exp = [nn.sum(), nn.mean(), nn.max(), nn[-1]][op]
+                        ok = ok and not np.isnan(o) and abs(o - exp) <= 1e-9 * max(1.0, abs(exp))
+                if ok and op == 0 and maxnan >= n:
+                    tot = np.nansum(vals)
+                    ok = abs(np.nansum(out) - tot) <= 1e-9 * max(1.0, abs(tot))
+                if not ok:
+                    bad += 1; _fail(rec, 'aggregate', 'groups: operator %d maxnan %d: result %r for groups of %r' % (op, maxnan, [float(o) for o in out], [vals[g].tolist() for g in groups][:8]), aggindex=idx.tolist(), inputs=[repr(v) for v in vals]); break
+            ev += 1
+            fh = D.flathomogen(idx, vals, maxnan)
+            ok = len(fh) == n
+            for g in groups:
+                v = vals[g]; nn = v[~np.isnan(v)]; nnan = int(np.isnan(v).sum())
+                o = fh[g]
+                if nnan > maxnan or len(nn) == 0:
+                    ok = ok and bool(np.all(np.isnan(o)))
+                else:
+                    m = nn.mean()
+                    ok = ok and bool(np.all(np.isnan(o[np.isnan(v)]))) and bool(np.all(np.abs(o[~np.isnan(v)] - m) <= 1e-9 * max(1.0, abs(m)))) \
+                        and abs(np.nansum(o) - nn.sum()) <= 1e-9 * max(1.0, abs(nn.sum()))
+            if not ok:
+                bad += 1; _fail(rec, 'flathomogen', 'groups: maxnan %d: result %r' % (maxnan, [repr(float(o)) for o in fh][:20]), aggindex=idx.tolist(), inputs=[repr(v) for v in vals])
+        # a decreasing index is rejected
+        if n >= 2:
+            ev += 1
+            bi = idx.copy(); k = rng.randrange(1, n); bi[k:] = bi[k:] - (int(bi[k] - bi[k - 1]) + 1)
+            for fn, args in ((D.aggregate, (bi, vals)), (D.flathomogen, (bi, vals))):
+                try:
+                    fn(*args); bad += 1; _fail(rec, fn.__name__ if hasattr(fn, '__name__') else 'aggregate', 'decreasing: an index that decreases is accepted', aggindex=bi.tolist()); break
+                except ValueError:
+                    pass
+    rec.bounded_clause('aggregate / flathomogen through the API: one value per run in order == sum / mean / max / last of the non-missing inputs or NaN beyond maxnan; flathomogen keeps missing entries and group totals; totals conserved; decreasing index rejected',
+                       '%d index / input vectors (constant, increasing, runs, near +-2**31; NaN leading / trailing / whole groups) x 4 operators x 4 maxnan' % (300 if quick else 3000), ev, DD.n('aggregate', 'flathomogen'), False, bad)
+    # ---- monthly2daily
+    ev = 0; bad = 0
+    for it in range(60 if quick else 600):
+        child.progress('monthly2daily %d' % it)
+        nm = rng.choice([2, 3, 12, 13, 25, 60, 240]) if not quick else rng.choice([2, 3, 12, 13, 25, 60])
+        y0 = rng.choice([1899, 1900, 1999, 2000, 2003, 2004, 2023, 2024, 2100]); m0 = rng.randint(1, 12)
+        idx = pd.date_range('%d-%02d-01' % (y0, m0), periods=nm, freq='MS')
+        vals = np.round(np.abs(nrng.normal(size=nm)) * rng.choice([1.0, 100.0, 0.01]), 6)
+        if rng.random() < 0.2:
+            vals[rng.randrange(nm)] = 0.0
+        sem = pd.Series(vals, index=idx)
+        for interp in ('flat', 'cubic'):
+            ev += 1
+            try:
+                sed = D.monthly2daily(sem, interp)
+                days = pd.date_range(idx[0], idx[-1] + pd.offsets.MonthEnd(0), freq='D')
+                ok = len(sed) == len(days) and bool((sed.index == days).all())
+                why = 'one value per calendar day (%d values for %d days)' % (len(sed), len(days))
+                if ok:
+                    ms = sed.groupby([sed.index.year, sed.index.month]).sum().values
+                    ok = len(ms) == nm and bool(np.all(np.abs(ms - vals) <= 1e-8 * np.maximum(1.0, np.abs(vals))))
+                    why = 'monthly sums differ from the monthly input (max error %r)' % (float(np.max(np.abs(ms - vals))) if len(ms) == nm else None)
+                if not ok:
+                    bad += 1; _fail(rec, 'monthly2daily', 'totals: %s (%s)' % (why, interp), start=str(idx[0].date()), months=nm, values=vals.tolist()[:40], interpolation=interp)
+            except Exception as e:
+                bad += 1; _fail(rec, 'monthly2daily', 'raises: %s %s (%s)' % (type(e).__name__, str(e)[:150], interp), start=str(idx[0].date()), months=nm, values=vals.tolist()[:40])
+    rec.bounded_clause('monthly2daily (flat / cubic): one value per calendar day, sum over each month == the monthly input', '%d month-start series of 2..240 months starting in any month of 9 years (leap years, 1900, 2100) with non-negative values' % (60 if quick else 600),
+                       ev, DD.n('monthly2daily'), False, bad)
